@@ -72,7 +72,7 @@ func e2eBessScopeWorker(args []string) error {
 		}
 	}
 
-	kinds := map[string]int{"ufar": 0, "uqer": 1, "updr": 2, "add": 3, "rm": 4, "newcp": 5, "rej": 6, "empty": 7, "rmall": 8}
+	kinds := map[string]int{"ufar": 0, "uqer": 1, "updr": 2, "add": 3, "rm": 4, "newcp": 5, "rej": 6, "empty": 7, "rmall": 8, "ufarn": 9}
 
 	for idx, sq := range seqs {
 		if idx%p.Of != p.Shard || w.Died {
